@@ -261,6 +261,16 @@ def correspondence(ctx):
 
 
 # ------------------------------------------------------------------ search
+def _close(a, b, rtol=1e-9):
+    """|a - b| <= rtol * max(1, |b|), with infinities equal only to themselves (an infinite tolerance accepts nothing)"""
+    a, b = float(a), float(b)
+    if np.isnan(a) or np.isnan(b):
+        return False
+    if np.isinf(a) or np.isinf(b):
+        return a == b
+    return abs(a - b) <= rtol * max(1.0, abs(b))
+
+
 def search(ctx):
     rng = ctx.rng
     n = ctx.n(100, 1000)
@@ -284,12 +294,12 @@ def search(ctx):
                 ctx.tried("uniform", (round(lo, 6), round(hi, 6)))
                 info = dict(kind="uniform", lo=lo, hi=hi)
                 val, _ = integrate.quad(u.prob, lo, hi)
-                if abs(val - 1) > 1e-8:
+                if not (abs(val - 1) <= 1e-8):
                     ctx.violation("C14:uniform-integral", "Uniform density integrates to %r" % val, info)
                 for x in [lo, hi, (lo + hi) / 2, np.nextafter(lo, -np.inf), np.nextafter(hi, np.inf), eval_point(rng, lo, hi)]:
                     lp, p = u.lnprob(x), u.prob(x)
                     inside = lo <= x <= hi
-                    if inside and not (p > 0 and abs(lp - math.log(p)) <= 1e-9 * max(1, abs(lp))):
+                    if inside and not (p > 0 and _close(lp, math.log(p))):
                         ctx.violation("C14:uniform-lnprob", "lnprob != log(prob) at %r" % x, dict(x=x, **info))
                     if not inside and not (p == 0 and lp == -np.inf):
                         ctx.violation("C14:uniform-support", "density not zero outside the support at %r" % x, dict(x=x, **info))
@@ -309,10 +319,10 @@ def search(ctx):
                 ctx.tried("gaussian", (round(mu, 6), round(sd, 6)))
                 info = dict(kind="gaussian", mu=mu, sd=sd)
                 val, _ = integrate.quad(g.prob, mu - 12 * sd, mu + 12 * sd, points=[mu])
-                if abs(val - 1) > 1e-7:
+                if not (abs(val - 1) <= 1e-7):
                     ctx.violation("C14:gaussian-integral", "Gaussian density integrates to %r" % val, info)
                 x = float(mu + rng.normal() * 3 * sd)
-                if abs(g.lnprob(x) - math.log(g.prob(x))) > 1e-9 * max(1, abs(g.lnprob(x))):
+                if not (g.prob(x) > 0 and _close(g.lnprob(x), math.log(g.prob(x)))):
                     ctx.violation("C14:gaussian-lnprob", "lnprob != log(prob) at %r" % x, dict(x=x, **info))
                 if g.guess != mu or g.scale_factor <= 0 or abs(g.unscale(g.scale(x)) - x) > 1e-12 * max(1, abs(x)):
                     ctx.violation("C14:gaussian-guess-scale", "guess/scale wrong", info)
@@ -344,7 +354,7 @@ def search(ctx):
                 for x in (lo, hi, np.nextafter(lo, -np.inf), np.nextafter(hi, np.inf), 0.0):
                     inside = lo <= x <= hi
                     lp, p = bg.lnprob(x), bg.prob(x)
-                    if inside and abs(lp - math.log(p)) > 1e-9 * max(1, abs(lp)):
+                    if inside and not (p > 0 and _close(lp, math.log(p))):
                         ctx.violation("C14:bounded-lnprob", "BoundedGaussian lnprob != log prob at %r" % x, dict(x=x, **info))
                     if not inside and not (p == 0 and lp == -np.inf):
                         ctx.violation("C14:bounded-support", "BoundedGaussian density not zero outside support", dict(x=x, **info))
@@ -425,7 +435,7 @@ def search(ctx):
                 s = t2.sample(4)
                 np.random.seed(seed)
                 a, b = p.sample(4), q.sample(4)
-                if np.abs(s - np.maximum(a, b)).max() > 1e-12:
+                if not (np.abs(s - np.maximum(a, b)).max() <= 1e-12):
                     ctx.violation("C14:ufunc-sample", "samples of numpy-ufunc prior wrong", dict(kind="ufunc"))
                 cp = ComplexPrior(Uniform(1, 2), Gaussian(0.1, 0.01))
                 z = complex(rng.uniform(0.5, 2.5), rng.normal() * 0.02 + 0.1)
